@@ -300,6 +300,10 @@ end XmlEnc
 
 /-- the stateless part of the text writers: the text of a token. (For the XML writer: the start and end tags
     as `xml.Encoder` prints them, `<Name type="…" value="…">` and `</Name>`.) -/
+-- (In Go the text of an enumeration / mask value also depends on the `realtag` argument of `Enum` / `Bitmask`,
+-- i.e. on the static Go type of the field — still nothing the encoder remembers from one call to the next. The
+-- theorems hold for EVERY `Render`; the items of the typed codec model do not carry the real tag, the `enc.hist`
+-- lines use `Enum(0, tag, v)`.)
 structure Render where
   xmlStart   : Nat → Bytes            -- `Struct(tag)`: `<Name>` or `<TTLV tag="0x…">`
   xmlEnd     : Nat → Bytes
